@@ -35,6 +35,48 @@ pub fn worker_pp(spec_path: &str) -> i32 {
         Some(v) => v,
         None => return 2,
     };
+    // {"fd_threads": n, "fd_depth": d, "dir": …}: n threads preprocess a legal include chain of depth d at the same time
+    // (released by a barrier, 5 rounds); prints how many calls failed although the same call succeeds alone
+    if let Some(n) = spec["fd_threads"].as_u64() {
+        let depth = spec["fd_depth"].as_u64().unwrap_or(15) as usize;
+        let dir = PathBuf::from(spec["dir"].as_str().unwrap_or("."));
+        for i in 0..depth {
+            let body = if i + 1 < depth { format!("t{}\n`include \"c{}.svh\"\n", i, i + 1) } else { "leaf\n".to_string() };
+            let _ = std::fs::write(dir.join(format!("c{}.svh", i)), body);
+        }
+        let _ = std::fs::write(dir.join("top.sv"), "a\n`include \"c0.svh\"\nb\n");
+        let top = dir.join("top.sv");
+        let incs = vec![dir.clone()];
+        let alone = sv::preprocess(&top, &sv::Defs::new(), &incs, false, false).map(|(t, _)| t.text().to_string()).map_err(|e| sv::err_kind(&e));
+        let mut failures = 0usize;
+        let mut first = String::new();
+        for _round in 0..5 {
+            let barrier = std::sync::Arc::new(std::sync::Barrier::new(n as usize));
+            let results: Vec<Result<String, String>> = std::thread::scope(|sc| {
+                let hs: Vec<_> = (0..n)
+                    .map(|_| {
+                        let b = barrier.clone();
+                        let (top, incs) = (top.clone(), incs.clone());
+                        sc.spawn(move || {
+                            b.wait();
+                            sv::preprocess(&top, &sv::Defs::new(), &incs, false, false).map(|(t, _)| t.text().to_string()).map_err(|e| sv::err_kind(&e))
+                        })
+                    })
+                    .collect();
+                hs.into_iter().map(|h| h.join().unwrap_or_else(|_| Err("panic".to_string()))).collect()
+            });
+            for r in results {
+                if r != alone {
+                    failures += 1;
+                    if first.is_empty() {
+                        first = format!("{:?}", r).chars().take(200).collect();
+                    }
+                }
+            }
+        }
+        println!("{}", json!({"ok": true, "alone_ok": alone.is_ok(), "concurrent_differences": failures, "first": first}));
+        return 0;
+    }
     // {"parse_text": …}: strict parse_sv_str on this (main) thread, with whatever stack the process was given
     if let Some(t) = spec["parse_text"].as_str() {
         let v = match sv::parse_text(sv::Grammar::Sv, t, false) {
